@@ -149,6 +149,14 @@ func modify(rec []byte, class string, salt, ord int) []byte {
 		} else {
 			r[0] ^= 1
 		}
+	case "cut-header":
+		r = r[:3] // the record ends inside its header (the rest of the stream moves up)
+	case "cut-body":
+		if body > 1 {
+			r = r[:5+body/2]
+		} else {
+			r = r[:4]
+		}
 	case "addbyte":
 		// a byte inserted inside the declared length, different from the byte it displaces
 		if body > 0 {
